@@ -245,6 +245,15 @@ pub fn c02_table(seed: u64, thorough: bool, out: &mut dyn Write) -> Stats {
     st
 }
 
+fn id_empty(st: &mut Stats, out: &mut dyn Write, id: &mut usize, src: &str) {
+    *id += 1;
+    if let run::Compiled::Ok(p, ast) = run::compile(src) {
+        let r = std::panic::catch_unwind(std::panic::AssertUnwindSafe(|| p.execute(&cel_interpreter::Context::empty())));
+        writeln!(out, "{}", json!({"ev": "case", "id": *id, "src": src, "text": crate::enc::cps(src), "ast": ast, "vars": [], "log": [], "out": run::outcome(r), "registry": "empty"})).unwrap();
+        st.cases += 1;
+    }
+}
+
 /// C20: call binding.  Every zoo signature x 0..arity+2 arguments of matching and mismatching kinds
 /// x both call styles; every receiver-style built-in x receivers/arguments of every kind in both
 /// styles (the two outcomes are recorded side by side); built-ins overridden by host functions.
@@ -377,6 +386,28 @@ pub fn c20_table(seed: u64, thorough: bool, out: &mut dyn Write) -> Stats {
         }
         emit(format!("{}()", f), None, &ov, &mut st, out);
         emit(format!("[1, 2].map(x, {}(x))", f), None, &ov, &mut st, out);
+    }
+    let mut id2 = 1_000_000usize;
+    // Context::empty(): no function at all is registered (operators and macros still work); and
+    // Context::resolve_all evaluates a sequence of expressions like a list literal
+    for src in ["size([1])", "[1].size()", "1 + 2", "[1, 2].map(x, x * 2)", "has({'a': 1}.a)", "int('1')", "t(1, 2)", "[1].all(x, size(x) > 0)", "-(1)", "!true", "{'a': 1}.a", "x"] {
+        id_empty(&mut st, out, &mut id2, src);
+    }
+    for parts in [vec!["1", "2"], vec!["t(1, 1)", "t(2, 2)", "t(3, 3)"], vec!["1", "1 / 0", "t(9, 9)"], vec![], vec!["undeclared_v", "t(1, 1)"], vec!["[t(1, 1)]", "{'a': t(2, 2)}"]] {
+        id2 += 1;
+        let exprs: Vec<cel_parser::Expression> = parts.iter().map(|p| cel_parser::Parser::new().parse(p).unwrap()).collect();
+        let log = crate::zoo::new_log();
+        let r = std::panic::catch_unwind(std::panic::AssertUnwindSafe(|| {
+            let mut ctx = cel_interpreter::Context::default();
+            crate::zoo::register(&mut ctx, &log);
+            ctx.resolve_all(&exprs)
+        }));
+        let l = log.lock().map(|g| g.clone()).unwrap_or_default();
+        let joined = format!("[{}]", parts.join(", "));
+        if let run::Compiled::Ok(_, ast) = run::compile(&joined) {
+            writeln!(out, "{}", json!({"ev": "case", "id": id2, "src": joined, "ast": ast, "vars": [], "log": l, "out": run::outcome(r), "api": "resolve_all"})).unwrap();
+            st.cases += 1;
+        }
     }
     st
 }
